@@ -117,8 +117,12 @@ func (r *chainRunner) wait(pred func() bool, limit time.Duration) bool {
 	}
 }
 
+// the wrapper scenarios count in whole seconds (Delay's threshold is one minute = 60)
+func secTime(t int) time.Time { return base.Add(time.Duration(t) * time.Second) }
+func secModel(tm time.Time) int { return int(tm.Sub(base) / time.Second) }
+
 func runChainCase(cs ChainCase, res *lib.Result) []string {
-	r := &chainRunner{cs: cs, res: res, clk: NewVClock(toTime(cs.T0)), lg: &chainLogger{}}
+	r := &chainRunner{cs: cs, res: res, clk: NewVClock(secTime(cs.T0)), lg: &chainLogger{}}
 	var w cron.JobWrapper
 	switch cs.Kind {
 	case "skip":
@@ -130,7 +134,7 @@ func runChainCase(cs ChainCase, res *lib.Result) []string {
 	}
 	inner := cron.FuncJob(func() {
 		r.mu.Lock()
-		run := &innerRun{b: len(r.runs), release: make(chan bool, 1), beganAt: toModel(r.clk.Now())}
+		run := &innerRun{b: len(r.runs), release: make(chan bool, 1), beganAt: secModel(r.clk.Now())}
 		r.runs = append(r.runs, run)
 		r.running++
 		if r.running > r.maxConc {
@@ -157,7 +161,7 @@ func runChainCase(cs ChainCase, res *lib.Result) []string {
 		r.mu.Lock()
 		i := r.calls
 		r.calls++
-		r.callAt = append(r.callAt, toModel(r.clk.Now()))
+		r.callAt = append(r.callAt, secModel(r.clk.Now()))
 		r.ret = append(r.ret, 0)
 		nruns := len(r.runs)
 		busy := r.running > 0
@@ -281,10 +285,10 @@ func runChainCase(cs ChainCase, res *lib.Result) []string {
 			release(op)
 		case "advance":
 			r.mu.Lock()
-			t := toModel(r.clk.Now()) + op.DT
+			t := secModel(r.clk.Now()) + op.DT
 			r.logf("advance t=%d", t)
 			r.mu.Unlock()
-			r.clk.Advance(toTime(t))
+			r.clk.Advance(secTime(t))
 		}
 		settle()
 	}
